@@ -1054,4 +1054,287 @@ theorem insertSplit_sinv {ir ir' : IR} {b off repl endB : Nat} {added : Bool} {p
       obtain ⟨s2, o2⟩ := connectEmptyTail_sinv e0 s1 o1
       exact ⟨s2, o2, fun s hsec => ⟨connectEmptyTail_secLe _ _ b s (le1 b s hsec), connectEmptyTail_secLe _ _ _ s (new1 s hsec)⟩⟩
 
+/-! ### the stages of `insert`: which touch symbols and the ordering -/
+
+/-- folding steps that each preserve the syms preserves them -/
+theorem foldl_syms {α} (f : IR → α → IR) (h : ∀ ir a, (f ir a).syms = ir.syms)
+    (l : List α) (ir : IR) : (l.foldl f ir).syms = ir.syms := by
+  induction l generalizing ir with
+  | nil => rfl
+  | cons a l ih => simp only [List.foldl_cons]; rw [ih, h]
+
+theorem ite_syms {c : Prop} [Decidable c] {a b : IR} {x : List Sym}
+    (ha : a.syms = x) (hb : b.syms = x) : (if c then a else b).syms = x := by
+  split <;> assumption
+
+/-- pair-valued fold whose IR component keeps the syms -/
+theorem foldl_pair_syms {α β} (f : IR × β → α → IR × β)
+    (h : ∀ acc a, (f acc a).1.syms = acc.1.syms)
+    (l : List α) (acc : IR × β) : (l.foldl f acc).1.syms = acc.1.syms := by
+  induction l generalizing acc with
+  | nil => rfl
+  | cons a l ih => simp only [List.foldl_cons]; rw [ih, h]
+
+@[simp] theorem updateFallthrough_syms (ir : IR) (s t : Nat) : (ir.updateFallthrough s t).syms = ir.syms :=
+  core_syms (updateFallthrough_core _ _ _)
+@[simp] theorem addFunctionBlock_syms (ir : IR) (b f : Nat) : (ir.addFunctionBlock b f).syms = ir.syms := rfl
+
+@[simp] theorem addReturnEdgesToCallee_syms (ir : IR) (pcfg : List Edge) (f : Nat) (rt : CfgNode) :
+    (ir.addReturnEdgesToCallee pcfg f rt).1.syms = ir.syms := by
+  unfold IR.addReturnEdgesToCallee
+  apply foldl_pair_syms
+  intro acc b
+  simp only []
+  split
+  · rfl
+  · simp only []
+    apply foldl_syms
+    intro ir e
+    rfl
+
+@[simp] theorem insertStitch_syms (ir : IR) (tb : List Block) (b e : Nat) (a : Bool) :
+    (ir.insertStitch tb b e a).syms = ir.syms := by
+  unfold IR.insertStitch
+  apply ite_syms
+  · simp only [updateFallthrough_syms]; split <;> simp
+  · split <;> simp
+
+@[simp] theorem placePatchBlocks_syms (ir : IR) (tb : List Block) (i base : Nat) :
+    (ir.placePatchBlocks tb i base).syms = ir.syms := rfl
+@[simp] theorem addPatchAux_syms (ir : IR) (p : Patch) (i base : Nat) :
+    (ir.addPatchAux p i base).syms = ir.syms := rfl
+@[simp] theorem bumpNext_syms (ir : IR) (p : Patch) : (ir.bumpNext p).syms = ir.syms := rfl
+
+@[simp] theorem addPatchFunctions_syms (ir : IR) (blk : Block) (tb : List Block) :
+    (ir.addPatchFunctions blk tb).syms = ir.syms := by
+  unfold IR.addPatchFunctions
+  split
+  · split
+    · apply foldl_syms; intro i b; split <;> rfl
+    · rfl
+  · rfl
+
+@[simp] theorem addReturnEdgesForPatchCalls_syms (ir : IR) (pcfg : List Edge) :
+    (ir.addReturnEdgesForPatchCalls pcfg).1.syms = ir.syms := by
+  unfold IR.addReturnEdgesForPatchCalls
+  apply foldl_pair_syms
+  intro acc ce
+  split
+  · rfl
+  · split
+    · rfl
+    · split
+      · rfl
+      · split
+        · rfl
+        · simp
+
+
+theorem addPatchExprs_syms (ir : IR) (i base : Nat) (ex : List (Nat × SymExpr)) : (ir.addPatchExprs i base ex).syms = ir.syms := by
+  unfold IR.addPatchExprs; split <;> rfl
+
+@[simp] theorem insertStitch_order (ir : IR) (tb : List Block) (b e : Nat) (a : Bool) :
+    (ir.insertStitch tb b e a).order = ir.order := by
+  unfold IR.insertStitch
+  apply ite_order
+  · simp only [updateFallthrough_order]; split <;> simp
+  · split <;> simp
+
+@[simp] theorem placePatchBlocks_order (ir : IR) (tb : List Block) (i base : Nat) :
+    (ir.placePatchBlocks tb i base).order = ir.order := rfl
+@[simp] theorem addPatchNodes_order (ir : IR) (p : Patch) (c : List Edge) (px : List Nat) :
+    (ir.addPatchNodes p c px).order = ir.order := rfl
+@[simp] theorem addPatchAux_order (ir : IR) (p : Patch) (i base : Nat) :
+    (ir.addPatchAux p i base).order = ir.order := rfl
+@[simp] theorem bumpNext_order (ir : IR) (p : Patch) : (ir.bumpNext p).order = ir.order := rfl
+
+@[simp] theorem addPatchFunctions_order (ir : IR) (blk : Block) (tb : List Block) :
+    (ir.addPatchFunctions blk tb).order = ir.order := by
+  unfold IR.addPatchFunctions
+  split
+  · split
+    · apply foldl_order; intro i b; split <;> rfl
+    · rfl
+  · rfl
+
+@[simp] theorem addReturnEdgesForPatchCalls_order (ir : IR) (pcfg : List Edge) :
+    (ir.addReturnEdgesForPatchCalls pcfg).1.order = ir.order := by
+  unfold IR.addReturnEdgesForPatchCalls
+  apply foldl_pair_order
+  intro acc ce
+  split
+  · rfl
+  · split
+    · rfl
+    · split
+      · rfl
+      · split
+        · rfl
+        · simp
+
+
+theorem addPatchExprs_order (ir : IR) (i base : Nat) (ex : List (Nat × SymExpr)) : (ir.addPatchExprs i base ex).order = ir.order := by
+  unfold IR.addPatchExprs; split <;> rfl
+
+/-! ### helpers for `insert` -/
+
+theorem block?_none_iff (ir : IR) (c : Nat) : ir.block? c = none ↔ c ∉ ir.ids := by
+  unfold IR.block? IR.ids
+  constructor
+  · intro h hm
+    obtain ⟨x, hx, hxc⟩ := List.mem_map.mp hm
+    have := List.find?_eq_none.mp h x hx
+    simp [hxc] at this
+  · intro h
+    apply List.find?_eq_none.mpr
+    intro x hx hxc
+    apply h
+    have : x.id = c := by simpa using hxc
+    rw [← this]; exact List.mem_map_of_mem hx
+
+/-- the ids after the split of `insert`: the old ones and ids taken from the counter -/
+theorem insertSplit_ids_sub {ir ir' : IR} {b off repl endB : Nat} {added : Bool}
+    (h : ir.insertSplit b off repl = .ok (ir', endB, added)) : ∀ c ∈ ir'.ids, c ∈ ir.ids ∨ ir.next ≤ c := by
+  unfold IR.insertSplit at h
+  split at h
+  · cases h
+  · rename_i ir1 e0 a0 hs1
+    have h1 := splitBlock_ids hs1
+    split at h
+    · split at h
+      · cases h
+      · rename_i i2 e2 a2 hs2
+        split at h
+        · cases h
+        · rename_i i3 d3 hr
+          injection h with h; injection h with hh1 hh2; subst hh1
+          have h2 := splitBlock_ids hs2
+          have hn := splitBlock_next hs1
+          have t := (connectEmptyTail_touches i2 e2).trans (removeBlock_touches hr)
+          intro c hc
+          rw [t.2.2.1, h2, h1] at hc
+          simp only [List.mem_append, List.mem_singleton] at hc
+          rcases hc with (hc | hc) | hc
+          · exact Or.inl hc
+          · right; omega
+          · right; omega
+    · injection h with h; injection h with hh1 hh2; subst hh1
+      have t := connectEmptyTail_touches ir1 e0
+      intro c hc
+      rw [t.2.2.1, h1] at hc
+      simp only [List.mem_append, List.mem_singleton] at hc
+      rcases hc with hc | hc
+      · exact Or.inl hc
+      · right; omega
+
+theorem secLe_of_append {a b : IR} (extra : List Block) (hb : b.blocks = a.blocks ++ extra) (hi : b.intervals = a.intervals) :
+    SecLe a b := by
+  intro c s ⟨x, hx, hsx⟩
+  refine ⟨x, ?_, by rw [sectionOf_congr hi]; exact hsx⟩
+  unfold IR.block? at hx ⊢
+  rw [hb, find_append, hx]
+
+/-- the section of a byte interval -/
+def ISec (ir : IR) (i s : Nat) : Prop := (ir.interval? i).map (·.sect) = some s
+
+theorem ISec.of_intervals {a b : IR} {i s : Nat} (h : b.intervals = a.intervals) (hs : ISec a i s) : ISec b i s := by
+  unfold ISec IR.interval? at *; rw [h]; exact hs
+
+theorem Sec.of_isec {ir : IR} {c i s : Nat} {x : Block} (hb : ir.block? c = some x) (hbi : x.bi = some i) (hi : ISec ir i s) :
+    Sec ir c s := by
+  refine ⟨x, hb, ?_⟩
+  unfold IR.sectionOf; rw [hbi]; exact hi
+
+theorem editInterval_isec (ir : IR) (i off len : Nat) (c st : List Nat) (j s : Nat) (h : ISec ir j s) :
+    ISec (ir.editInterval i off len c st) j s := by
+  unfold IR.editInterval
+  split
+  · exact h
+  · rename_i bi hbi
+    have hbid : bi.id = i := by
+      unfold IR.interval? at hbi
+      have := List.find?_some hbi
+      simpa using this
+    let nv : Interval :=
+      { id := bi.id, sect := bi.sect, addr := bi.addr, size := bi.size + c.length - len,
+        bytes := spliceBytes bi.bytes off len c, symExprs := shiftKeys off len c.length bi.symExprs }
+    show ((ir.setInterval nv).interval? j).map (·.sect) = _
+    rw [sect_setInterval ir bi nv (by show ir.interval? bi.id = some bi; rw [hbid]; exact hbi) rfl j]
+    exact h
+
+theorem addPatchExprs_sects (ir : IR) (i base : Nat) (ex : List (Nat × SymExpr)) (j : Nat) :
+    ((ir.addPatchExprs i base ex).interval? j).map (·.sect) = (ir.interval? j).map (·.sect) := by
+  unfold IR.addPatchExprs
+  split
+  · rfl
+  · rename_i bi hbi
+    have hbid : bi.id = i := by
+      unfold IR.interval? at hbi
+      have := List.find?_some hbi
+      simpa using this
+    let nv : Interval := { bi with symExprs := ex.foldl (fun m (k, v) => aset (base + k) v m) bi.symExprs }
+    show ((ir.setInterval nv).interval? j).map (·.sect) = _
+    exact sect_setInterval ir bi nv (by show ir.interval? bi.id = some bi; rw [hbid]; exact hbi) rfl j
+
+theorem addPatchExprs_secLe (ir : IR) (i base : Nat) (ex : List (Nat × SymExpr)) : SecLe ir (ir.addPatchExprs i base ex) := by
+  intro c s ⟨x, hx, hsx⟩
+  refine ⟨x, ?_, ?_⟩
+  · rw [block?_of_blocks (addPatchExprs_blocks ir i base ex)]; exact hx
+  · rw [sectionOf_of_sects (addPatchExprs_sects ir i base ex)]; exact hsx
+
+/-- placing the patch's blocks: a block that is none of them stays as it is -/
+theorem placePatchBlocks_other (ir : IR) (tb : List Block) (i base c : Nat) (hc : c ∉ tb.map (·.id)) :
+    (ir.placePatchBlocks tb i base).block? c = ir.block? c := by
+  let placed := tb.map (fun b => ({ b with bi := some i, off := base + b.off } : Block))
+  let f : Block → Block := fun b => match placed.find? (·.id == b.id) with | some pb => pb | none => b
+  have hid : ∀ x, (f x).id = x.id := by
+    intro x; simp only [f]; split
+    · rename_i pb hp; exact findB_id hp
+    · rfl
+  unfold IR.block?
+  show List.find? _ (ir.blocks.map f) = _
+  rw [find_map_id f hid]
+  cases hf : ir.blocks.find? (·.id == c) with
+  | none => rfl
+  | some x =>
+    have hxc : x.id = c := findB_id hf
+    simp only [Option.map_some, f]
+    have : placed.find? (·.id == x.id) = none := by
+      apply List.find?_eq_none.mpr
+      intro y hy hyx
+      obtain ⟨z, hz, hzy⟩ := List.mem_map.mp hy
+      apply hc
+      have : y.id = x.id := by simpa using hyx
+      rw [← hxc, ← this, ← hzy]
+      exact List.mem_map.mpr ⟨z, hz, rfl⟩
+    rw [this]
+
+/-- … and one of them is attached to the byte interval -/
+theorem placePatchBlocks_patch (ir : IR) (tb : List Block) (i base c : Nat) (hc : c ∈ tb.map (·.id))
+    (hx : ir.block? c ≠ none) : ∃ pb, (ir.placePatchBlocks tb i base).block? c = some pb ∧ pb.bi = some i := by
+  let placed := tb.map (fun b => ({ b with bi := some i, off := base + b.off } : Block))
+  let f : Block → Block := fun b => match placed.find? (·.id == b.id) with | some pb => pb | none => b
+  have hid : ∀ x, (f x).id = x.id := by
+    intro x; simp only [f]; split
+    · rename_i pb hp; exact findB_id hp
+    · rfl
+  cases hf : ir.block? c with
+  | none => exact absurd hf hx
+  | some x =>
+    have hxc : x.id = c := findB_id hf
+    obtain ⟨z, hz, hzc⟩ := List.mem_map.mp hc
+    cases hp : placed.find? (·.id == x.id) with
+    | none =>
+      have := List.find?_eq_none.mp hp { z with bi := some i, off := base + z.off }
+        (List.mem_map.mpr ⟨z, hz, rfl⟩)
+      simp [hzc, hxc] at this
+    | some pb =>
+      refine ⟨pb, ?_, ?_⟩
+      · unfold IR.block? at hf ⊢
+        show List.find? _ (ir.blocks.map f) = _
+        rw [find_map_id f hid, hf]
+        simp only [Option.map_some, f, hp]
+      · obtain ⟨w, _, hw⟩ := List.mem_map.mp (List.mem_of_find?_eq_some hp)
+        rw [← hw]
+
 end GtirbVerif.IR
